@@ -49,6 +49,9 @@ impl fmt::Display for FileTransferPluginError {
 
 impl Error for FileTransferPluginError {}
 
+/// upper limit for the buffer pre-allocated from the sizes announced by a FLST message
+const MAX_PREALLOC_SIZE: u64 = 16 * 1024 * 1024;
+
 #[derive(Debug, PartialEq)]
 enum FileTransferState {
     /// we handle the case where only the FLST message is lost but the FLDA starts with the 1st package
@@ -325,8 +328,12 @@ impl Plugin for FileTransferPlugin {
                                 next_package: 1,
                                 recvd_packages: 0,
                                 recvd_payload: 0,
+                                // the announced sizes come from the log: use them only for a
+                                // bounded pre-allocation (capacity > 0 marks "keep the data")
                                 file_data: Vec::with_capacity(if keep_data {
-                                    (nr_packages * buffer_size) as usize
+                                    nr_packages
+                                        .saturating_mul(buffer_size)
+                                        .min(MAX_PREALLOC_SIZE) as usize
                                 } else {
                                     0
                                 }),
